@@ -134,11 +134,10 @@ func SearchKnown(from Point, target, avoid func(ssa.Instruction) bool, known map
 	}
 	trail := func(b *ssa.BasicBlock, hit ssa.Instruction) []ssa.Instruction {
 		var blocks []*ssa.BasicBlock
-		for x := b; x != nil; x = prev[x] {
+		seenT := map[*ssa.BasicBlock]bool{}
+		for x := b; x != nil && !seenT[x]; x = prev[x] {
+			seenT[x] = true
 			blocks = append(blocks, x)
-			if x == from.B && prev[x] == nil {
-				break
-			}
 		}
 		var out []ssa.Instruction
 		for i := len(blocks) - 1; i >= 0; i-- {
